@@ -186,3 +186,20 @@ def _cumsum_nonneg(c):
 Lemma(['C09', 'C01'], 'cumsum_of_nonnegative', _cumsum_nonneg,
       doc='partial sums of non-negative terms are non-negative, non-decreasing and dominate each term: the guarded '
           'fact offered by the cumsum model')
+
+
+def _sum_between(c):
+    I, R = z3.IntSort(), z3.RealSort()
+    f = z3.Function('f', I, R)
+    L, H = z3.Reals('L H')
+    a, m, q = z3.Ints('a m q')
+    F = lambda lo, hi: c.Sum(lo, hi, lambda k: f(k))
+    inside = lambda lo, hi: z3.ForAll([q], z3.Implies(z3.And(lo <= q, q < hi), z3.And(L <= f(q), f(q) <= H)))
+    P = lambda lo, hi: z3.And((hi - lo) * L <= F(lo, hi), F(lo, hi) <= (hi - lo) * H)
+    return [('base', [], P(a, a)),
+            ('step', [a <= m, inside(a, m + 1), z3.Implies(inside(a, m), P(a, m))], P(a, m + 1))]
+
+
+Lemma(['C10', 'C12', 'C05'], 'sum_between', _sum_between,
+      doc='a sum of terms that all lie in [L, H] lies in [(hi-lo) L, (hi-lo) H] (induction): justifies the bounding steps '
+          '(Ctx.sum_between) used in hint chains')
